@@ -58,19 +58,55 @@ class FakeFile(object):
         self.env.log.append(('write', self.path))
 
 
+class AList(object):
+    """Association list with == lookup (a dict would hash, i.e. realise, symbolic path strings)."""
+
+    def __init__(self, items=None):
+        self.items = [[k, v] for k, v in (items.items() if isinstance(items, dict) else (items or []))]
+
+    def _find(self, k):
+        for it in self.items:
+            if it[0] == k:
+                return it
+        return None
+
+    def __contains__(self, k):
+        return self._find(k) is not None
+
+    def __getitem__(self, k):
+        it = self._find(k)
+        if it is None:
+            raise KeyError(k)
+        return it[1]
+
+    def get(self, k, default=None):
+        it = self._find(k)
+        return default if it is None else it[1]
+
+    def __setitem__(self, k, v):
+        it = self._find(k)
+        if it is None:
+            self.items.append([k, v])
+        else:
+            it[1] = v
+
+    def keys(self):
+        return [it[0] for it in self.items]
+
+
 class Env(object):
-    """fs: {path: bytes}; dirs: {dir: [(root, [dirs], [files]), ...]} walk listings."""
+    """fs: path -> bytes; dirs: dir -> [(root, [dirs], [files]), ...] walk listings (association lists)."""
 
     def __init__(self, fs=None, dirs=None, stdin=b'', environ=None, readonly=(), unreadable=()):
-        self.fs = dict(fs or {})
-        self.dirs = dict(dirs or {})
+        self.fs = AList(fs)
+        self.dirs = AList(dirs)
         self.stdin = stdin
         self.stdout_bytes = b''
         self.stdout_text = ''
         self.stderr_text = ''
         self.environ = dict(environ or {})
-        self.readonly = set(readonly)
-        self.unreadable = set(unreadable)
+        self.readonly = list(readonly)
+        self.unreadable = list(unreadable)
         self.log = []       # ('open', path, mode) / ('write', path)
 
     # -- builtins.open ---------------------------------------------------------------------------------------
